@@ -19,6 +19,10 @@ Case groups (every case is JSON and replayable through GROUPS[case["k"]]):
            multiple of 256 must be attributed to their own contig by every operation above
   hist     histories on stranded intervals: sorted / indexing / clip / extended_to_size / merged / concatenate / windows
            around the 5' ends (1..2 steps), then a strand-aware step on the result == that step on the rows by hand
+  cross    two genome objects over the same chromosomes that number them differently (other order, sort_names, other
+           filter, with_ignored_added, one more / fewer chromosome): entries made by one (chromosome column already
+           encoded) used with arrays / Geometry / GlobalOffset / map_locations / BinnedGenome of the other must be
+           refused or answered for the chromosome NAMED by the entry
 """
 import itertools
 import os
@@ -43,6 +47,7 @@ ON_UNCHANGED_TREE = {
     "GenomicSequence[intervals]:stranded:no-entries:exception:ValueError",
     "GenomicSequence[intervals]:stranded:all-intervals-length-1:exception:AttributeError",
     "history:extended_to_size:result-not-stranded",
+    "cross-genome:GenomicArray[mask-of-other-genome]:values-of-other-chromosome",
 }
 
 
@@ -1353,8 +1358,182 @@ def chk_hist(col, case):
             hist_step(col, case, env, s1, second, [first])
 
 
+# ----------------------------------------------------------------------------------------------- group: cross
+# two genome contexts that NUMBER the chromosomes differently (other order of the same chrom.sizes, sort_names=True,
+# other filter - ignored names are numbered last -, with_ignored_added, one more / one fewer chromosome).  Entries made
+# by genome B (Genome.get_intervals / get_locations: the chromosome column is already encoded, with B's numbers) are
+# handed to objects of genome A: GenomicArray[...], extract_locations, Geometry.*, GlobalOffset.*, Genome.get_intervals,
+# map_locations, BinnedGenome.count, GenomicSequence[...].  Contract: the operation is refused (any exception) or its
+# result is the one of the chromosome NAMED by each entry - never the one that has the same number in the other genome.
+
+CROSS = "cross-genome:"
+
+
+def cross_parse(spec):
+    genome, filt, inc, genome_inc, sizes = parse(spec)
+    extra = set(spec.get("extra_ignored", ()))
+    inc = [n for n in inc if n not in extra]
+    genome_inc = [(n, s) for n, s in genome_inc if n not in extra]
+    return genome, filt, inc, genome_inc, sizes
+
+
+def cross_try(col, case, c, contract, sig, run, ok):
+    """one contract: run() on the real objects; an exception is a refusal (accepted); otherwise ok(result) -> (bool, expected)"""
+    col.case({"c": c, **case}, contract=contract)
+    try:
+        got = run()
+    except BaseException as e:
+        if not isinstance(e, Exception):
+            raise
+        return
+    good, exp = ok(got)
+    col.check(good, CROSS + sig, case, "entries made by genome %r used with genome %r: got %r expected (by chromosome name) %r, or a refusal" % (
+        case["b"]["genome"], case["genome"], got, exp))
+
+
+def chk_cross(col, case):
+    import numpy as np
+    from bionumpy.bnpdataclass import replace
+    from bionumpy.datatypes import LocationEntry
+    from bionumpy.genomic_data.geometry import Geometry
+    from bionumpy.genomic_data.global_offset import GlobalOffset
+    from bionumpy.genomic_data.binned_genome import BinnedGenome
+    from bionumpy.genomic_data import GenomicSequence
+    genome, filt, inc, genome_inc, sizes = cross_parse(case)
+    bspec = case["b"]
+    bgenome, bfilt, binc, bgenome_inc, bsizes = cross_parse(bspec)
+    entries = [(c, int(s), int(e)) for c, s, e in case["entries"]]
+    strands = case["strands"]
+    if not entries or any(c not in inc or c not in binc for c, _, _ in entries):
+        return                                   # entries on chromosomes that both genomes include
+    eq = lambda exp: (lambda got: (got == exp, exp))
+    order = {n: i for i, n in enumerate(inc)}
+    off = dict(zip(inc, R.offsets([s for _, s in genome_inc])))
+    A = col.guarded(lambda: make_genome(genome, filt, case), "Genome.from_dict", case)
+    B = col.guarded(lambda: make_genome(bgenome, bfilt, bspec), "Genome.from_dict", case)
+    if A is None or B is None:
+        return
+    ctx = A.get_genome_context()
+    values = vals_of("distinct", genome_inc)
+    ga = col.guarded(lambda: make_array(genome_inc, values, ctx), "GenomicArray.from_dict", case)
+    gi = col.guarded(lambda: B.get_intervals(make_intervals(entries)), "get_intervals", case)
+    gs = col.guarded(lambda: B.get_intervals(make_intervals(entries, strands), stranded=True), "get_intervals:stranded", case)
+    locs = [(c, s) for c, s, e in entries] + [(c, e - 1) for c, s, e in entries]
+    gl = col.guarded(lambda: B.get_locations(LocationEntry([c for c, _ in locs], [p for _, p in locs])), "get_locations", case)
+    if ga is None or gi is None or gs is None or gl is None:
+        return
+    # the entries as genome B sees them (control: B must not have changed them)
+    col.case({"c": "control", **case}, contract="cross-genome: entries of the other genome read back")
+    got = col.guarded(lambda: (ivs(gi), ivs(gs), list(zip(names(gl.chromosome), np.asarray(gl.position).tolist()))), "get_intervals:read-back", case)
+    if got is None or not col.check(got == (entries, entries, locs), "get_intervals:entries-not-those-of-included-chromosomes", case,
+                                    "got %r expected %r" % (got, (entries, entries, locs))):
+        return
+    d, ds, dl = gi.get_data(), gs.get_data(), gl.data
+    dr = case.get("over", 2)
+    over = [(c, s, e + dr) for c, s, e in entries]
+    d_over = B.get_intervals(make_intervals(over)).get_data()
+
+    # --- array values
+    exp_rows = [values[c][s:e] for c, s, e in entries]
+    cross_try(col, case, "array_unstranded", "cross-genome: GenomicArray[intervals of the other genome]",
+              "GenomicArray[intervals]:unstranded:values-of-other-chromosome", lambda: rows(ga[gi]), eq(exp_rows))
+    cross_try(col, case, "array_stranded", "cross-genome: GenomicArray[stranded intervals of the other genome]",
+              "GenomicArray[intervals]:stranded:values-of-other-chromosome", lambda: rows(ga[gs]),
+              eq([r if st == "+" else r[::-1] for r, st in zip(exp_rows, strands)]))
+    cross_try(col, case, "extract_locations", "cross-genome: GenomicArray.extract_locations(locations of the other genome)",
+              "extract_locations:values-of-other-chromosome", lambda: np.asarray(ga.extract_locations(gl)).tolist(),
+              eq([values[c][p] for c, p in locs]))
+    # a mask of genome B selects, chromosome by chromosome, the values under B's entries (either genome's order)
+    per = {n: [(s, e) for c, s, e in entries if c == n] for n in set(inc) | set(binc)}
+    sel = {n: [v for v, b in zip(values[n], R.mask(per[n], sizes[n])) if b] for n in inc}
+    by_mask = [[v for n in o if n in sel for v in sel[n]] for o in (inc, binc)]
+    cross_try(col, case, "array_by_mask", "cross-genome: GenomicArray[mask of the other genome]",
+              "GenomicArray[mask-of-other-genome]:values-of-other-chromosome", lambda: np.asarray(ga[gi.get_mask()]).tolist(),
+              lambda got: (got in by_mask, by_mask[0]))
+
+    # --- coordinate conversion of genome A (from the context and from the {name: size} dict alone)
+    for via, go in (("genome", ctx.global_offset), ("dict", col.guarded(lambda: GlobalOffset({n: s for n, s in genome_inc}), "GlobalOffset(dict)", case))):
+        if go is None or via not in case.get("vias", ("genome", "dict")):
+            continue
+        sub = dict(case, via=via)
+        cross_try(col, sub, "get_offset", "cross-genome: GlobalOffset.get_offset", "GlobalOffset.get_offset:offset-of-other-chromosome",
+                  lambda: np.asarray(go.get_offset(d.chromosome)).tolist(), eq([off[c] for c, _, _ in entries]))
+        cross_try(col, sub, "get_size", "cross-genome: GlobalOffset.get_size", "GlobalOffset.get_size:size-of-other-chromosome",
+                  lambda: np.asarray(go.get_size(d.chromosome)).tolist(), eq([sizes[c] for c, _, _ in entries]))
+        cross_try(col, sub, "from_local", "cross-genome: from_local_coordinates", "from_local_coordinates:offset-of-other-chromosome",
+                  lambda: np.asarray(go.from_local_coordinates(dl.chromosome, dl.position)).tolist(), eq([off[c] + p for c, p in locs]))
+        cross_try(col, sub, "from_local_interval", "cross-genome: from_local_interval", "from_local_interval:offset-of-other-chromosome",
+                  lambda: (lambda r: list(zip(np.asarray(r.start).tolist(), np.asarray(r.stop).tolist())))(go.from_local_interval(d)),
+                  eq([(off[c] + s, off[c] + e) for c, s, e in entries]))
+        cross_try(col, sub, "start_ends_clip", "cross-genome: start_ends_from_intervals(do_clip)",
+                  "start_ends_from_intervals:clip-at-end-of-other-chromosome",
+                  lambda: (lambda r: list(zip(np.asarray(r[0]).tolist(), np.asarray(r[1]).tolist())))(go.start_ends_from_intervals(d_over, do_clip=True)),
+                  eq([(off[c] + s, off[c] + min(e, sizes[c])) for c, s, e in over]))
+
+    # --- re-wrapping B's rows in genome A
+    cross_try(col, case, "rewrap_intervals", "cross-genome: Genome.get_intervals(rows of the other genome)",
+              "Genome.get_intervals:rows-moved-to-other-chromosome", lambda: ivs(A.get_intervals(d)), eq(entries))
+    cross_try(col, case, "rewrap_locations", "cross-genome: Genome.get_locations(rows of the other genome)",
+              "Genome.get_locations:rows-moved-to-other-chromosome",
+              lambda: (lambda x: list(zip(names(x.chromosome), np.asarray(x.position).tolist())))(A.get_locations(dl)), eq(locs))
+
+    # --- Geometry of genome A ('_' names are outside its domain)
+    if all("_" not in n for n, _ in genome) and not case.get("extra_ignored"):
+        geo = col.guarded(lambda: Geometry({n: s for n, s in genome}), "Geometry", case)
+        if geo is not None:
+            for op, ref in (("get_mask", R.mask), ("get_pileup", R.pileup)):
+                exp = {n: ref(per[n], sizes[n]) for n in inc}
+                cross_try(col, case, "geo_" + op, "cross-genome: Geometry." + op, "Geometry.%s:coverage-on-other-chromosome" % op,
+                          lambda: dict_py(getattr(geo, op)(d).to_dict()), eq(exp))
+            cross_try(col, case, "geo_clip", "cross-genome: Geometry.clip", "Geometry.clip:clipped-to-other-chromosome",
+                      lambda: ivs(geo.clip(d_over)), eq([(c,) + R.clip((s, e), sizes[c]) for c, s, e in over]))
+            for L in case.get("lengths", (1, 3)):
+                cross_try(col, dict(case, L=L), "geo_extend", "cross-genome: Geometry.extend_to_size",
+                          "Geometry.extend_to_size:limited-by-other-chromosome", lambda: ivs(geo.extend_to_size(ds, L)),
+                          eq([(c,) + R.extend_to_size((s, e), st, L, sizes[c]) for (c, s, e), st in zip(entries, strands)]))
+            cross_try(col, case, "geo_sort", "cross-genome: Geometry.sort", "Geometry.sort:not-genome-order-or-rows-changed",
+                      lambda: ivs(geo.sort(d)), lambda got: (sorted_ok(got, entries, order), "the rows in the order of %r" % (inc,)))
+
+    # --- locations of B mapped to / counted on genome A
+    sl = sorted(set(locs), key=lambda l: (order[l[0]], l[1]))
+    whole = [(n, 0, s) for n, s in genome_inc]
+
+    def run_map():
+        src = B.get_locations(LocationEntry([c for c, _ in sl], [p for _, p in sl])).data
+        r = A.get_intervals(make_intervals(whole)).map_locations(src)
+        return sorted((int(str(n)), int(p)) for n, p in zip(r.chromosome.tolist(), np.asarray(r.position).tolist()))
+    required = sorted((order[c], p) for c, p in sl)
+    # (a location at position 0 may in addition be paired with the interval that ends there: tolerated, see group 'loc')
+    tolerated = required + [(order[c] - 1, 0) for c, p in sl if p == 0 and order[c] > 0]
+
+    def map_ok(got):
+        keys = set(got) | set(required)
+        return (all(required.count(x) <= got.count(x) <= tolerated.count(x) for x in keys), required)
+    cross_try(col, case, "map_locations", "cross-genome: map_locations(locations of the other genome)",
+              "map_locations:location-mapped-to-other-chromosome", run_map, map_ok)
+    for b in case.get("bin_sizes", (1, 2)):
+        exp = {n: [0] * ((s + b - 1) // b) for n, s in genome_inc}
+        for c, p in locs:
+            exp[c][p // b] += 1
+
+        def run_binned():
+            bg = BinnedGenome(ctx, bin_size=b)
+            bg.count(dl)
+            return dict_py(bg.count_dict)
+        cross_try(col, dict(case, bin=b), "binned", "cross-genome: BinnedGenome.count(locations of the other genome)",
+                  "BinnedGenome.count:counted-on-other-chromosome", run_binned, eq(exp))
+
+    # --- sequence (a dict of sequences has no numbering of its own: looked up by name)
+    seqs = {n: seq_of(i, s) for i, (n, s) in enumerate(sorted(genome))}
+    sq = col.guarded(lambda: GenomicSequence.from_dict(seqs), "GenomicSequence.from_dict", case)
+    if sq is not None:
+        cross_try(col, case, "seq_stranded", "cross-genome: GenomicSequence[stranded intervals of the other genome]",
+                  "GenomicSequence[intervals]:stranded:sequence-of-other-chromosome", lambda: [str(x).upper() for x in sq[gs].tolist()],
+                  eq([seqs[c][s:e] if st == "+" else R.revcomp(seqs[c][s:e]) for (c, s, e), st in zip(entries, strands)]))
+
+
 GROUPS = {"offset": chk_offset, "sets": chk_sets, "elem": chk_elem, "loc": chk_loc, "array": chk_array,
-          "spill": chk_spill, "fasta": chk_fasta, "many": chk_many, "hist": chk_hist}
+          "spill": chk_spill, "fasta": chk_fasta, "many": chk_many, "hist": chk_hist, "cross": chk_cross}
 
 
 # ----------------------------------------------------------------------------------------------- enumeration
@@ -1516,6 +1695,68 @@ def hist_cases(tier, S):
                        "first": [first], "second": seconds}
 
 
+def cross_cases(tier, S):
+    """pairs (genome A, genome B) over the same chrom.sizes with different chromosome numbers x entry sets made by B"""
+    thorough = tier == "thorough"
+    pairs = []
+    three = [(3, 2, 3), (2, 3, 1)] + ([(S, S, S), (1, 2, S)] if thorough else [])
+    for sz in three:
+        file_order = [("chr1", sz[0]), ("chr2", sz[1]), ("chr10", sz[2])]
+        firsts = [file_order] + ([[file_order[2], file_order[0], file_order[1]]] if thorough and sz == three[0] else [])
+        for a in firsts:
+            for p in itertools.permutations(range(3)):            # identity: a second object with the same numbers
+                if not thorough and sz != three[0] and p not in ((0, 2, 1), (2, 1, 0)):
+                    continue
+                if not thorough and sz != three[0]:
+                    pairs.append(({"genome": a, "filter": "keep", "sort_names": p == (0, 2, 1)}, {"genome": [a[i] for i in p], "filter": "keep"}))
+                    continue
+                pairs.append(({"genome": a, "filter": "keep"}, {"genome": [a[i] for i in p], "filter": "keep"}))
+            if thorough or sz == three[0]:
+                pairs.append(({"genome": a, "filter": "keep"}, {"genome": a, "filter": "keep", "sort_names": True}))
+                pairs.append(({"genome": a, "filter": "keep", "sort_names": True}, {"genome": a, "filter": "keep"}))
+    # other filter (ignored names are numbered after the included ones), with_ignored_added, one more / one fewer chromosome
+    for sz in [(2, 3, 1, 2)] + ([(S, 1, 2, S)] if thorough else []):
+        u = [("chr1", sz[0]), ("chr1_alt", sz[1]), ("chr10", sz[2]), ("chr2", sz[3])]
+        plain = [(n, s) for n, s in u if "_" not in n]
+        pairs += [({"genome": u, "filter": "keep"}, {"genome": u, "filter": "ign"}),
+                  ({"genome": u, "filter": "ign"}, {"genome": u, "filter": "keep"}),
+                  ({"genome": plain, "filter": "keep"}, {"genome": u, "filter": "keep"}),
+                  ({"genome": u, "filter": "keep"}, {"genome": plain, "filter": "keep"}),
+                  ({"genome": plain, "filter": "keep"}, {"genome": plain, "filter": "keep", "extra_ignored": ["chr1"]}),
+                  ({"genome": plain, "filter": "keep", "extra_ignored": ["chr10"]}, {"genome": plain, "filter": "keep"}),
+                  ({"genome": plain, "filter": "keep"}, {"genome": [("chr0", 2)] + plain, "filter": "keep"}),
+                  ({"genome": plain, "filter": "keep"}, {"genome": plain[1:], "filter": "keep"}),
+                  ({"genome": plain, "filter": "keep"}, {"genome": plain + [("chr3", 2)], "filter": "keep"}),
+                  ({"genome": plain + [("chr3", 2)], "filter": "keep"}, {"genome": plain, "filter": "keep"})]
+    for pi, (a, b) in enumerate(pairs):
+        inc_a, inc_b = cross_parse(a)[2], cross_parse(b)[2]
+        sizes = dict(a["genome"])
+        common = [n for n in inc_a if n in inc_b]
+        smallest = min(s for n, s in a["genome"] + b["genome"])
+        sets = []
+        for n in common:           # one interval alone: it fits in the chromosome that has its number in the other genome, or not
+            if thorough:
+                menu = all_intervals(sizes[n])
+            elif pi < 8:
+                menu = [(0, 1), (sizes[n] - 1, sizes[n])]
+            else:
+                menu = [(0, sizes[n])] if n == common[pi % len(common)] else []
+            sets += [[(n, x, y)] for x, y in dict.fromkeys(menu)]
+        sets.append([(n, x, y) for n in common for x, y in all_intervals(smallest)])      # fit into every chromosome
+        sets.append([(n, 0, 1) for n in common])
+        sets.append([(n, sizes[n] - 1, sizes[n]) for n in common][::-1])
+        if thorough:
+            sets.append([(n, x, y) for n in common for x, y in all_intervals(sizes[n])])
+            sets += [[(n, 0, smallest), (m, 0, smallest)] for n, m in itertools.permutations(common, 2)]
+        for k, entries in enumerate(sets):
+            pats = strand_patterns(len(entries), "quick")
+            for st in (pats if thorough and len(entries) > 2 else [pats[k % len(pats)]]):
+                c = {"k": "cross", **a, "b": b, "entries": entries, "strands": st, "over": 1 + k % 2}
+                if not thorough:       # one fragment length / bin size per case, GlobalOffset from the dict alone every other case
+                    c.update({"lengths": [1 + 2 * (k % 2)], "bin_sizes": [1 + (k + 1) % 2], "vias": ["genome", "dict"][:1 + k % 2]})
+                yield c
+
+
 def gen_cases(tier):
     S = 3 if tier == "quick" else 4
     thorough = tier == "thorough"
@@ -1653,6 +1894,7 @@ def gen_cases(tier):
                         yield {"k": "fasta", "genome": genome, "filter": filt, "entries": entries, "strands": st, "width": width, "source": source}
 
     # --- more than 256 / 65536 sequence names; histories on stranded intervals followed by a strand-aware step
+    yield from cross_cases(tier, S)
     yield from many_cases(tier)
     yield from hist_cases(tier, S)
 
@@ -1685,7 +1927,11 @@ def run(tier="quick", seed=0):
                     "with entries on the contigs around every multiple of 256 / 65536; plus histories of 1..2 steps {sorted, index by "
                     "permutation / mask / slice, clip, extended_to_size, merged(0), concatenate, windows around 5' ends} on stranded "
                     "intervals (all intervals of 1..4 chromosomes, not in genome order, also sticking out of the chromosome) followed by "
-                    "get_location / array / sequence extraction on the result"
+                    "get_location / array / sequence extraction on the result; plus pairs of genome objects over the same 3..4 "
+                    "chromosomes with different chromosome numbers (every order of chr1/chr2/chr10, sort_names, keep/ignore '_' names, "
+                    "with_ignored_added, one chromosome more / fewer) x entry sets made by one genome (single intervals, all intervals "
+                    "that fit into every chromosome, first / last bases) used with array / Geometry / GlobalOffset / map_locations / "
+                    "BinnedGenome / sequence of the other: refused or answered by chromosome name"
                     % (S, 520 if tier == "quick" else 1030, "65600" if tier == "quick" else "65537..131100"))
     col.bounds = {"chromosomes": "1..4", "sizes": "1..%d" % S, "intervals_per_chromosome_exhaustive": "<=2 (<=3 single chromosome)",
                   "merge_distance": [0, 1, 2], "flank": "0..%d" % S, "window_size": "1..%d" % (S + 2), "bin_size": "1..%d" % (S + 1),
@@ -1694,6 +1940,9 @@ def run(tier="quick", seed=0):
                   "many_contigs": [257, 300, 520] if tier == "quick" else [256, 257, 258, 300, 520, 600, 1030],
                   "many_contigs_global_offset_only": [65600] if tier == "quick" else [65537, 65600, 70000, 131100],
                   "many_contigs_sizes": "2..6", "history_steps": "1..2",
+                  "cross_genome_pairs": "3 chromosomes: all 6 orders + sort_names both ways; 4 chromosomes: keep/ignore '_', "
+                                        "with_ignored_added, +-1 chromosome; sizes 1..%d; entry sets: single intervals (%s), all intervals "
+                                        "fitting every chromosome, first bases, last bases" % (S, "boundary ones" if tier == "quick" else "all"),
                   "history_step_menu": "sorted, x[perm rev/rot/evenodd], x[mask even/odd/minus-rows], x[1:], clip, extended_to_size(1,2,%d), "
                                        "merged(0), np.concatenate([x, x]), get_location('start').get_windows(flank 0,1)" % (S + 1)}
     for case in gen_cases(tier):
